@@ -216,7 +216,7 @@ def generate(rng, tier, idx):
     er = rng.random()
     if er < 0.06 and not sc.get('bad_hex'):
         sc['entry'] = 'num_rows'
-        sc['num_rows'] = rng.choice([1, 2, 3])
+        sc['num_rows'] = rng.choice([1, 2, 3, 3, 50])
         sc['line_mode'] = False
     elif er < 0.16 and sc['level'] != 'text' and not sc.get('bad_hex'):
         # the reader's other users: rbql_main.sample_lines / sample_records and the CSV join registry, all of which open the
@@ -555,6 +555,16 @@ def execute(sc):
                                  sc.get('shape'), sc.get('bufsize'), sc.get('entry'), sc.get('num_rows'), sc.get('bad_hex'), sc.get('bad_at'), sc.get('seekable')])
     else:
         res['key'] = core.key64(sc)
+    if sc.get('entry') == 'num_rows' and ref[0] == 'ok':
+        # two ways of reading the same content: get_all_records(num_rows=N) must hand out the first N records of the get_record() loop
+        plain_sc = {k: v for k, v in sc.items() if k not in ('entry', 'num_rows')}
+        plain = read_case(t, plain_sc, [n] if n else [], n + 1)
+        if plain[0] == 'ok' and ref[1] != plain[1][:sc['num_rows']]:
+            res.update(verdict='violation', oracle='model', detail={'get_all_records': ref, 'get_record_loop': plain, 'num_rows': sc['num_rows']},
+                       case=single_case(sc, [n] if n else [], n + 1))
+            res['evals'] = 2
+            res['digest'] = core.digest([ref, plain])
+            return res
     if model_view(ref) != model_view(model):
         res.update(verdict='violation', oracle='model', detail={'whole_delivery': ref, 'model': model},
                    case=single_case(sc, [n] if n else [], n + 1))
